@@ -86,8 +86,13 @@ def build(combo, rng):
     flags = rng.choice([0, bpv7.FLAG_NO_FRAGMENT, bpv7.FLAG_REQ_FORWARDING, bpv7.FLAG_USER_APP_ACK | bpv7.FLAG_REQ_STATUS_TIME,
                         # bits RFC 9171 leaves unassigned must travel unchanged as well
                         0x80, 0x100 | bpv7.FLAG_NO_FRAGMENT, 0x200000, 0x08 | bpv7.FLAG_REQ_FORWARDING])
-    pri = dict(version=7, flags=flags, crc_type=rng.choice([0, crc]), dest=dest, src=rng.choice(['dtn://src/app', 'ipn:7.3', 'dtn:none']),
-               report_to=rng.choice(['dtn:none', 'dtn://rep/r']), create_time=ctime, seqno=rng.choice([0, 1, 2 ** 32]),
+    if rng.random() < 0.15:
+        # an administrative record in transit: whole, a piece of one (as a fragment carries), or something this node cannot read
+        flags |= bpv7.FLAG_ADMIN
+        record = bpv7.encode_status_report([(True, None), (False, None), (False, None), (True, None)], rng.choice([1, 6, 17, 200]), 'dtn://subj/x', 5, 6)
+        blocks[-1]['data'] = rng.choice([record, record[:7], record[3:], b'\xff\x00\x01', cw.enc([9, {2: 1, 1: 2}])])
+    pri = dict(version=7, flags=flags, crc_type=rng.choice([0, crc]), dest=dest, src=rng.choice(['dtn://src/app', 'ipn:7.3', 'dtn:none', 'ipn:0.0', 'ipn:4294967296.1']),
+               report_to=rng.choice(['dtn:none', 'dtn://rep/r', 'ipn:0.0']), create_time=ctime, seqno=rng.choice([0, 1, 2 ** 32]),
                lifetime=combo['lifetime'], frag_offset=None, total_adu_len=None, crc=None)
     return dict(primary=pri, blocks=blocks, dwell_ms=rng.choice([0, 0, 1, 1500, 86400000]))
 
@@ -127,7 +132,10 @@ def check_forward(bundle, obs, shared=None):
         except bpv7.DecodeError as derr:
             problems.append('an output is not decodable: %s' % derr)
             continue
-        if not dec['primary']['flags'] & bpv7.FLAG_ADMIN:
+        same_bundle = (dec['primary']['src'], dec['primary']['create_time'], dec['primary']['seqno']) == (
+            bundle['primary']['src'], bundle['primary']['create_time'], bundle['primary']['seqno'])
+        if not dec['primary']['flags'] & bpv7.FLAG_ADMIN or same_bundle:
+            # (status reports generated by this node are not the forwarded bundle; an administrative record in transit is)
             outs.append((raw, data, dec, probs))
     if len(outs) != 1:
         problems.append('%d non-administrative outputs for one forwarded bundle (%s)' % (len(outs), res))
